@@ -1,5 +1,6 @@
 """Command pipeline tools."""
 
+import contextlib
 import errno
 import io
 import os
@@ -385,11 +386,18 @@ class CommandPipeline:
             # (e.g. sleep) and get interrupted by Ctrl+C.  Reading first
             # ensures that output already produced by the last process
             # (e.g. echo) is captured in self.lines regardless.
-            stdout_lines = safe_readlines(stdout, 1024)
+            # A ``PopenThread`` appends to these buffers with
+            # tell/seek(END)/write/seek(back) under its lock.  A read that
+            # lands between the tell and the first seek is rewound by the
+            # last seek and delivered again, so take the same lock.
+            buflock = getattr(proc, "lock", None) or contextlib.nullcontext()
+            with buflock:
+                stdout_lines = safe_readlines(stdout, 1024)
             i = len(stdout_lines)
             if i != 0:
                 yield from stdout_lines
-            stderr_lines = safe_readlines(stderr, 1024)
+            with buflock:
+                stderr_lines = safe_readlines(stderr, 1024)
             j = len(stderr_lines)
             if j != 0:
                 self.stream_stderr(stderr_lines)
@@ -439,9 +447,13 @@ class CommandPipeline:
             self._close_prev_procs()
         proc.prevs_are_closed = True
 
-        # read from process now that it is over
-        yield from safe_readlines(stdout)
-        self.stream_stderr(safe_readlines(stderr))
+        # read from process now that it is over (its copying thread may
+        # still be draining the pipe: same lock as above)
+        with getattr(proc, "lock", None) or contextlib.nullcontext():
+            stdout_lines = safe_readlines(stdout)
+            stderr_lines = safe_readlines(stderr)
+        yield from stdout_lines
+        self.stream_stderr(stderr_lines)
         proc.wait()
         self._endtime()
         yield from safe_readlines(stdout)
